@@ -3,7 +3,7 @@ collection of Symbols, collection of builtins, and a subclass pair on both level
 from __future__ import annotations
 
 from dataclasses import dataclass, field
-from typing import List, Optional
+from typing import List, Optional, Sequence
 
 from krrood.entity_query_language.predicate import Symbol
 
@@ -28,12 +28,15 @@ class Box(Symbol):
     main: Part = None
     spare: Optional[Part] = None
     parts: List[Part] = field(default_factory=list)
-    sizes: List[int] = field(default_factory=list)
+    sizes: Sequence[int] = field(default_factory=list)  # a collection that is not annotated as List/Set
 
 
 @dataclass(eq=False)
 class BigBox(Box):
-    pass
+    """container-like: a big box without parts is falsy, and a domain element all the same"""
+
+    def __len__(self):
+        return len(self.parts)
 
 
 @dataclass(eq=False)
